@@ -124,6 +124,19 @@ def gen_cases(ctx, prop):
         decl = list(range(n))
         rng.shuffle(decl)
         add(mk_case(deps, kinds, decl, max_paths=6, kind="rand"))
+    # stress: free-running Runner and a busy-polling loop, so that the loop reads statuses while stage goroutines are between
+    # their two status writes (allowed failure: Error, then Done); many allowed-failure stages, each with a dependant
+    for _ in range(400 if thorough else 120):
+        k = rng.randint(6, 14)
+        deps, kinds = {}, []
+        for a in range(k):
+            deps[2 * a] = []
+            deps[2 * a + 1] = [2 * a]
+            kinds += [rng.choice(["allowfail", "allowfail", "allowfail", "ok", "fail"]), rng.choice(["ok", "ok", "allowfail"])]
+        c = mk_case(deps, kinds, list(range(2 * k)), kind="stress")
+        c["free"] = True
+        c["single"] = True
+        add(c)
     # cancellation: external Cancel at every decision point, condition errors at every position (C03)
     ncancel = 160 if thorough else (60 if prop == "C03" else 24)
     for _ in range(ncancel):
